@@ -33,24 +33,53 @@ struct c17_hlog {
 #define HLOG_PRE (g_hl.n < 1000000u)
 #define HLOG_FRAME g_hl
 
+/* ---- call logs: the k-th call of a stubbed function and its arguments ---- */
+struct c17_call { void *obj; long a, b, c; void *p, *q; };
+#define C17_LOGN 4
+struct c17_clog { unsigned n; struct c17_call c[C17_LOGN]; };
+/* MEASURED: DFCC checks every assignment against every assigns target (a loop over the write
+ * set), so all logs live in ONE struct (one target) and a log entry is written by ONE struct
+ * assignment: connect_thread_prv went from 70 s of symbolic execution to a few seconds. */
+struct c17_logs {
+	struct c17_clog calloc_, chan_init, track_init, prop, bayreg, connect, prvreg, select, input, pcftype, pcfval, cputh, getout;
+} g_L;
+#define g_l_calloc g_L.calloc_
+#define g_l_chan_init g_L.chan_init
+#define g_l_track_init g_L.track_init
+#define g_l_prop g_L.prop
+#define g_l_bayreg g_L.bayreg
+#define g_l_connect g_L.connect
+#define g_l_prvreg g_L.prvreg
+#define g_l_select g_L.select
+#define g_l_input g_L.input
+#define g_l_pcftype g_L.pcftype
+#define g_l_pcfval g_L.pcfval
+#define g_l_cputh g_L.cputh
+#define g_l_getout g_L.getout
+static inline void c17_log(struct c17_clog *l, void *obj, long a, long b, long c, void *p, void *q)
+{
+	if (l->n < C17_LOGN) {
+		struct c17_call e; e.obj = obj; e.a = a; e.b = b; e.c = c; e.p = p; e.q = q;
+		l->c[l->n] = e;
+	}
+	l->n++;
+}
+
 /* ---- lower-layer failures (calloc returns NULL, snprintf truncates) ---- */
 unsigned g_lowfail;
 #define LOW_PRE (g_lowfail < 1000000u)
-void *g_calloc_last;        /* last object handed out by calloc */
-size_t g_calloc_n, g_calloc_sz;
 void *calloc(size_t n, size_t sz)
 {
-	g_calloc_n = n; g_calloc_sz = sz;
 	if (nondet_bool()) { g_lowfail++; return NULL; }
 	size_t tot = n * sz;
 	if (n != 0 && tot / n != sz) { g_lowfail++; return NULL; }
 	char *p = malloc(tot);
 	if (p == NULL) { g_lowfail++; return NULL; }
 	if (tot > 0) __CPROVER_array_set(p, 0);
-	g_calloc_last = p;
+	c17_log(&g_l_calloc, p, (long) n, (long) sz, 0, NULL, NULL);
 	return p;
 }
-#define CALLOC_FRAME g_lowfail, g_calloc_last, g_calloc_n, g_calloc_sz
+#define CALLOC_FRAME g_lowfail, g_L
 
 /* ---- variadic emulator functions called by mark.c: fixed-arity logging stubs ---- */
 #include "chan.h"
@@ -67,24 +96,13 @@ void *calloc(size_t n, size_t sz)
 #include "pv/prv.h"
 #include "pv/pvt.h"
 #include "thread.h"
-struct c17_call { void *obj; long a, b; void *p, *q; };
-#define C17_LOGN 4
-struct c17_clog { unsigned n; struct c17_call c[C17_LOGN]; };
-static inline void c17_log(struct c17_clog *l, void *obj, long a, long b, void *p, void *q)
-{
-	if (l->n < C17_LOGN) {
-		l->c[l->n].obj = obj; l->c[l->n].a = a; l->c[l->n].b = b; l->c[l->n].p = p; l->c[l->n].q = q;
-	}
-	l->n++;
-}
-struct c17_clog g_l_chan_init, g_l_track_init;
 static inline void c17_chan_init(struct chan *ch, enum chan_type type)
 {
-	c17_log(&g_l_chan_init, ch, (long) type, 0, NULL, NULL);
+	c17_log(&g_l_chan_init, ch, (long) type, 0, 0, NULL, NULL);
 }
 static inline int c17_track_init(struct track *tr, struct bay *bay, enum track_type type, int mode)
 {
-	c17_log(&g_l_track_init, tr, (long) type, (long) mode, bay, NULL);
+	c17_log(&g_l_track_init, tr, (long) type, (long) mode, 0, bay, NULL);
 	if (nondet_bool()) { g_lowfail++; return -1; }
 	return 0;
 }
